@@ -193,6 +193,18 @@ PROPS["C02"] = {
     "level_note": LEVEL_NOTE_NOISE,
 }
 
+PROPS["C16"] = {
+    "pkgs": ["mailbox"],
+    "level": "fault_enumeration",
+    "quick_budget": 70, "thorough_budget": 1500,
+    "rule": "Enumerated: XX handshakes at versions 0, 1, 2 and 0..2 and the KK handshake, over a stream whose every Read returns at most g bytes for every g in 1..40 plus a random granularity, compared with the unfragmented handshake of the same keys; for payload sizes {0,1,15,16,17,100} every two-way and every three-way partition of the record's wire bytes (18 + n + 16) into partial writes each ended by a timeout error, plus 200 random finer partitions per size. Sampled: record exchange through NoiseGrpcConn / NoiseConn / Machine over fragmenting readers, payloads 0..65535. Oracles: same outcome, keys, version and auth data as unfragmented; successive Flush calls emit exactly the record once, their counts sum to the payload length, WriteMessage returns ErrMessageNotFlushed while bytes are pending, the peer reads the payload." + SIG_RULE,
+    "assumptions": ["a partial write is modelled as io.Writer.Write returning n < len(p) with an error whose Timeout() is true, as net.Conn does"],
+    "components": NOISE_COMPONENTS,
+    "expected_probes": ["c16.partitions"],
+    "level_text": "Fault enumeration: all read granularities 1..40 for each handshake kind and all two- and three-way write partitions of a record are enumerated completely; finer partitions and long exchanges are seeded samples.",
+    "level_note": LEVEL_NOTE_NOISE,
+}
+
 # Properties that are pure functions of their input: no schedule, clock, fault
 # or interleaving enters them, so deterministic simulation has nothing to decide.
 NOT_APPLICABLE = {
